@@ -119,6 +119,7 @@ def run(ck, prog, ctx):
     # content (filter, filter_map, an `if` inside the loop) is the parsers' business and not restricted here.
     from engines import for_loops as _for_loops, HARD_TRUNCATIONS as _HT, loop_early_exits as _early
     n_el = 0
+    n_unread = 0
     for fid, what, src in ((O + "read_obo_file", "stanza of hp.obo", ("split",)), (O + "add_connections", "line of a [Term] stanza", ("lines", "split")),
                            (G + "parse", "line of the gene file", ("lines",)), (D + "parse", "line of phenotype.hpoa", ("lines",))):
         fb_ = prog.body(fid)
@@ -137,6 +138,7 @@ def run(ck, prog, ctx):
         pipes = [p_ for p_ in pipes if any(m in p_[2] for m in src)]
         if not pipes:
             ck.undecided("ROLE", "every-element/%s" % fb_.short, "the iteration over the %ss is not recognised in %s" % (what.split(" of ")[0], fb_.short), where=fb_.where())
+            n_unread += 1
             continue
         for fbx, line, chain, lp in pipes:
             cut = [m for m in chain if m in _HT or m in ("map_while", "take_while", "skip_while")]
@@ -145,7 +147,7 @@ def run(ck, prog, ctx):
             ck.ob("ROLE", "every-element/%s" % fb_.short, not cut and not early, "%s looks at %s" % (fb_.short, ("every %s" % what) if not cut and not early else
                   ("the %ss that remain after `%s`: everything behind the first element it rejects (or before the position it skips to) is silently ignored" % (what.split(" of ")[0], ", ".join(cut)) if cut
                    else "the %ss up to an early exit of the loop (line %s)" % (what.split(" of ")[0], fbx.blocks[early[0][0]].term.line))), where=fbx.where(line))
-    ck.floor("ROLE", "parsing loops examined for completeness", n_el, 3)
+    ck.floor("ROLE", "parsing loops examined for completeness", n_el, 3, soft=n_unread > 0)
 
     # ------------------------------------------------------------------ ROLE: the per-line parsers receive lines WITHOUT their terminator
     pvm = Prov(prog, inline=False)
